@@ -16,6 +16,12 @@ from nauyaca.protocol.response import GeminiResponse  # noqa: E402
 from nauyaca.server import protocol as srvproto  # noqa: E402
 from nauyaca.server.middleware import MiddlewareChain  # noqa: E402
 
+import hashlib
+
+from .memtls import make_cert
+
+PEER_DER = make_cert("ec", "client-cert")[2]
+PEER_FP = "sha256:" + hashlib.sha256(PEER_DER).hexdigest()
 BODY = "BODY-SENTINEL-é\n"           # what handlers return as text body
 BODY_B = BODY.encode("utf-8")
 BODY_BYTES = b"\x00\xffBODY-BYTES\r\n"   # bytes body (not valid UTF-8, contains CRLF)
@@ -240,7 +246,9 @@ class ConnHarness:
         chain = middleware if middleware is not None else (MiddlewareChain(self.components) if self.components else None)
         up = SpyUpload(self) if cfg["hasUpload"] else None
         self.proto = srvproto.GeminiServerProtocol(handler or self._handler, chain, up)
-        self.tr = FakeTransport(self.loop, self.proto, peername=self.PEER, auto_lost=False)
+        self.with_cert = self.rnd.random() < 0.5
+        self.tr = FakeTransport(self.loop, self.proto, peername=self.PEER, auto_lost=False,
+                                peer_der=PEER_DER if self.with_cert else None)
         self.escaped = []          # exceptions that escaped a protocol callback
         v, e = self.loop.call(self.proto.connection_made, self.tr)
         if e:
@@ -347,7 +355,23 @@ class ConnHarness:
             "calls": dict(self.calls),
             "busy": bool(tasks),
             "torn": bool(self.tr.wire) and bool(getattr(self.tr, "fatal", None)),
+            "consultedOK": self.consulted_ok(),
         }
+
+    def consulted_ok(self):
+        """C04: every component was consulted with the real peer address, the request URL (without Titan
+        parameters) and the fingerprint of the certificate actually presented."""
+        want_fp = PEER_FP if self.with_cert else None
+        line = self.line.decode("utf-8", "replace")
+        for c in self.components:
+            if c.seen is None:
+                continue
+            url, ip, fp = c.seen
+            base = line.split(";", 1)[0] if line.startswith("titan://") else line
+            # the URL may be normalised (default port dropped, "/" for an empty path) but must denote the request
+            if ip != self.PEER[0] or fp != want_fp or not isinstance(url, str) or base.split("://", 1)[-1].rstrip("/") not in url.replace(":1965", ""):
+                return False
+        return True
 
     def close(self):
         try:
@@ -370,4 +394,5 @@ def model_projection(st):
         "calls": {"h": st["calls"]["h"], "u": st["calls"]["u"], "mw": st["calls"]["mw"]},
         "busy": st["pending"] != "none",
         "torn": st["torn"],
+        "consultedOK": True,
     }
